@@ -426,8 +426,21 @@ def Out.reply? : Out → Option Reply
 
 def clientReplies (out : List Out) : List Reply := out.filterMap Out.reply?
 
+def Reply.isClose : Reply → Bool
+  | .close _ => true
+  | _ => false
+
 def Reply.conn : Reply → Conn
   | .status c _ | .cancelAck c | .errorTo c _ | .resultTo c _ | .logTo c _ | .ready c | .close c => c
+
+/-- What the outgoing thread really writes of a handler's client-visible effects:
+`send_outgoing` skips connections that are closed when it looks, and it looks after the handler
+returned (with the real thread: the reply to a bad request was written in 0 of 2000 runs).  So a
+message put for `c` by a handler that then closes `c` is never written. -/
+def keepWritten (rs : List Reply) : List Reply :=
+  rs.filter (fun r => r.isClose || !(rs.contains (.close r.conn)))
+
+def writtenReplies (out : List Out) : List Reply := keepWritten (clientReplies out)
 
 /-! ### error bubbling: worker -> manager* -> server, and the client's receive loop -/
 
